@@ -477,12 +477,36 @@ func (in *Interp) quote(s Str) Str {
 			out = append(out, b)
 			continue
 		}
-		c := in.concretizeInt(b, "quoted byte")
-		if c >= 0x80 {
+		if c, ok := b.Int64(); ok {
+			if c >= 0x80 {
+				unsup("quoting of non-ASCII byte")
+			}
+			q := strconv.Quote(string(rune(c)))
+			out = append(out, in.mkStr(q[1:len(q)-1]).B...)
+			continue
+		}
+		// the bytes strconv.Quote writes as a two-character escape, one branch each
+		done := false
+		for _, c := range []byte{'"', '\\', '\a', '\b', '\f', '\n', '\r', '\t', '\v'} {
+			if in.branch(in.tb.Eq(b, in.tb.Int(int64(c)))) {
+				q := strconv.Quote(string(rune(c)))
+				out = append(out, in.mkStr(q[1:len(q)-1]).B...)
+				done = true
+				break
+			}
+		}
+		if done {
+			continue
+		}
+		if !in.branch(in.tb.Lt(b, in.tb.Int(0x80))) {
 			unsup("quoting of symbolic non-ASCII byte")
 		}
-		q := strconv.Quote(string(rune(c)))
-		out = append(out, in.mkStr(q[1:len(q)-1]).B...)
+		// the remaining control characters and DEL: \xHH with lower-case hex digits
+		hex := func(d *Term) *Term {
+			return in.tb.Ite(in.tb.Lt(d, in.tb.Int(10)), in.tb.Add(d, in.tb.Int('0')), in.tb.Add(d, in.tb.Int('a'-10)))
+		}
+		sixteen := big.NewInt(16)
+		out = append(out, in.tb.Int('\\'), in.tb.Int('x'), hex(in.tb.DivF(b, sixteen)), hex(in.tb.ModF(b, sixteen)))
 	}
 	out = append(out, in.tb.Int('"'))
 	return Str{out}
